@@ -375,7 +375,13 @@ def parsed_text_accepted_only_without_errors(ctx, rid):
         if f is None:
             r.undecidable(rid, "parse::parser::Parser::%s not found" % nm)
             continue
-        for path in explore(f, pure=lambda c: True, max_paths=2000, program=p):
+        def acceptance_helper(c, _f=f):
+            # a private helper of the parser module that decides acceptance from the session's error state
+            h = p.fns.get(c.name)
+            return h is not None and h.id.startswith("rustfmt_nightly::parse::parser::") and "ParserError" in h.locals[0] \
+                and h.id != _f.id and any(x.name.endswith("ParseSess::has_errors") or x.name.endswith("ParseSess::can_reset_errors")
+                                          for x in h.calls()) and not any(x.name == "std::panic::catch_unwind" for x in h.calls())
+        for path in explore(f, pure=lambda c: not acceptance_helper(c), max_paths=2000, program=p, inline="auto"):
             if path.end != "ret" or path.ret is None or not vkey(path.ret).startswith("Ok("):
                 continue
             n += 1
